@@ -5,6 +5,7 @@ import Mp.Cue
 import Mp.CueFunc
 import Mp.Tree
 import Mp.CueWalk
+import Mp.CueAst
 /-! Line-protocol handlers of the model driver (core-only: links as an executable). -/
 open Lean
 namespace Mp
@@ -188,7 +189,12 @@ def handleCue (line : String) : String :=
       | none => "UNMODELLED"
       | some qh =>
         match (parse goTables (unhex qh)).1, blockedFields root [] cp with
-        | .op t, some bl => if unavailable (bl.map (·.toUTF8.toList)) t then "REJ blocked" else "UNMODELLED"
+        | .op t, some bl =>
+          -- the validator on the operation itself (Mp/CueAst.lean) where the query is of the shape it covers; otherwise the walk alone
+          (match verdictOf (vTop root bl t) with
+           | some v => v
+           | none => if unavailable (bl.map (·.toUTF8.toList)) t then "REJ blocked" else "UNMODELLED")
+        | .op _, none => "ERR"
         | _, _ => "UNMODELLED"
     else
     let calls : List (String × Nat) := match j.getObjVal? "calls" with
